@@ -73,10 +73,100 @@ def scriptsOf (p : Parsed) : Scripts := fun o tag =>
   | some e => e.2
   | none => []
 
+def oid (o : Nat) : String := s!"o{o}"
+
+def renderRow (r : Nat × Nat × Int) : String := s!"o{r.1}/co{r.2.1}/{r.2.2}"
+
+/-- canonical text of an event (exactly what the harness prints) -/
+def render : Ev → String
+  | .tickbegin t => s!"{t} tickbegin"
+  | .tickend t => s!"{t} tickend"
+  | .co t o f d tag h => s!"{t} r co o{o} {f} {d} {tag} {h}"
+  | .fire t o f tag => s!"{t} fire o{o} {f} {tag}"
+  | .rmh t o tag r => s!"{t} r rmh o{o} {tag} {r}"
+  | .fh t o tag r => s!"{t} r fh o{o} {tag} {r}"
+  | .rmn t o f r => s!"{t} r rmn o{o} {f} {r}"
+  | .fnm t o f r => s!"{t} r fn o{o} {f} {r}"
+  | .rmall t o => s!"{t} r rmall o{o}"
+  | .dest t o x => s!"{t} r dest o{o} o{x}"
+  | .info t rows => s!"{t} r info{String.join (rows.map fun r => " " ++ renderRow r)}"
+  | .err o => s!"err *boom o{o}"
+  | .opErr o => s!"r o{o} do_op !err"
+  | .opDestructed o => s!"r o{o} do_op !destructed"
+  | .setScriptDestructed o => s!"r o{o} set_script !destructed"
+  | .note l => l
+  | .crash l => l
+  | .sanitizer l => l
+  | .malformed l => l
+  | .unexpected l => l
+
+def parseRow (s : String) : Option (Nat × Nat × Int) :=
+  match s.splitOn "/" with
+  | [o, f, d] =>
+    if f.startsWith "co" then do some (← parseOid o, ← (f.drop 2).toString.toNat?, ← d.toInt?) else none
+  | _ => none
+
+/-- one canonical output line -> event (lines that are recognised but whose numbers do not parse become
+    `.malformed`, unknown lines `.unexpected`) -/
+def parseEv (line : String) : Ev :=
+  let orBad (e : Option Ev) : Ev := e.getD (.malformed line)
+  match toks line with
+  | [t, "tickbegin"] => orBad do some (.tickbegin (← t.toInt?))
+  | [t, "tickend"] => orBad do some (.tickend (← t.toInt?))
+  | [t, "r", "co", o, f, d, tag, h] =>
+    orBad do some (.co (← t.toInt?) (← parseOid o) (← f.toNat?) (← d.toInt?) tag (← h.toInt?))
+  | [t, "fire", o, f, tag] => orBad do some (.fire (← t.toInt?) (← parseOid o) (← f.toNat?) tag)
+  | [t, "r", "rmh", o, tag, r] => orBad do some (.rmh (← t.toInt?) (← parseOid o) tag (← r.toInt?))
+  | [t, "r", "fh", o, tag, r] => orBad do some (.fh (← t.toInt?) (← parseOid o) tag (← r.toInt?))
+  | [t, "r", "rmn", o, f, r] => orBad do some (.rmn (← t.toInt?) (← parseOid o) (← f.toNat?) (← r.toInt?))
+  | [t, "r", "fn", o, f, r] => orBad do some (.fnm (← t.toInt?) (← parseOid o) (← f.toNat?) (← r.toInt?))
+  | [t, "r", "rmall", o] => orBad do some (.rmall (← t.toInt?) (← parseOid o))
+  | [t, "r", "dest", o, x] => orBad do some (.dest (← t.toInt?) (← parseOid o) (← parseOid x))
+  | t :: "r" :: "info" :: rows =>
+    let rs := rows.map parseRow
+    if rs.all Option.isSome then orBad do some (.info (← t.toInt?) (rs.filterMap id)) else .malformed line
+  | "err" :: _ => .note line
+  | ["r", _, "do_op", "!err"] => .note line
+  | ["r", _, "do_op", "!destructed"] => .note line
+  | ["r", _, "set_script", "!destructed"] => .note line
+  | "crash" :: _ => .crash line
+  | "sanitizer" :: _ => .sanitizer line
+  | [] => .note line
+  | _ => .unexpected line
+
+/-- text of a verdict (unchanged from the string-level judge this oracle replaced) -/
+def Violation.render : Violation → String
+  | .nestedTick e => s!"nested-tick {NV.C10.render e}"
+  | .malformed l => s!"malformed {l}"
+  | .notFired o tag due t => s!"not-fired owner=o{o} tag={tag} due={due} tick={t} late={t - due}"
+  | .scheduledByDestructed e => s!"scheduled-by-destructed {NV.C10.render e}"
+  | .callOutRefused e => s!"call_out-refused {NV.C10.render e}"
+  | .handleReused e => s!"handle-reused {NV.C10.render e}"
+  | .fireOutsideTick e => s!"fire-outside-tick {NV.C10.render e}"
+  | .fireUnscheduled o f tag t => s!"fire-unscheduled-removed-or-repeated owner=o{o} fn={f} tag={tag} at={t}"
+  | .fireEarly o tag due t => s!"fire-early owner=o{o} tag={tag} due={due} at={t} early={due - t}"
+  | .fireDestructedOwner o tag => s!"fire-destructed-owner owner=o{o} tag={tag}"
+  | .removeHandleAnswer o tag got want => s!"remove-handle-answer owner=o{o} tag={tag} got={got} want={want}"
+  | .removeHandleNothingPending o tag got => s!"remove-handle-nothing-pending owner=o{o} tag={tag} got={got}"
+  | .findHandleAnswer o tag got want => s!"find-handle-answer owner=o{o} tag={tag} got={got} want={want}"
+  | .findHandleNothingPending o tag got => s!"find-handle-nothing-pending owner=o{o} tag={tag} got={got}"
+  | .removeNameNothingPending o f got => s!"remove-name-nothing-pending owner=o{o} fn={f} got={got}"
+  | .removeNameAnswer o f got pending => s!"remove-name-answer owner=o{o} fn={f} got={got} pending={pending}"
+  | .findNameNothingPending o f got => s!"find-name-nothing-pending owner=o{o} fn={f} got={got}"
+  | .findNameAnswer o f got pending => s!"find-name-answer owner=o{o} fn={f} got={got} pending={pending}"
+  | .infoMismatch missing extra => s!"info-mismatch missing={missing.map renderRow} extra={extra.map renderRow}"
+  | .crash l => s!"crash {l}"
+  | .memoryError l => s!"memory-error {l}"
+  | .unexpectedLine l => s!"unexpected-line {l}"
+
+/-- the string-level judge used on implementation traces: parse, then the same `judgeEv` the theorems are about -/
+def judge (trace : List String) : List String :=
+  (judgeEv (trace.map parseEv)).map Violation.render
+
 def runModel (lines : List String) : List String :=
   let p := parseCase lines
   if !p.bad.isEmpty then p.bad.map (fun l => s!"bad-line {l}")
-  else (runCmds (scriptsOf p) World.init p.cmds).out.reverse
+  else (events (runCmds (scriptsOf p) World.init p.cmds)).map render
 
 def runJudge (body : List String) : List String :=
   let (_input, impl) := splitJudge body
